@@ -401,6 +401,43 @@ def ctl_graph_restore_without_copy(ctx):
                          what="graph restored from the caller's document without a copy")
 
 
+def ctl_append_before_membership_test(ctx):
+    """get_task_sequence that records a descendant before asking whether it is new."""
+    import ast
+    from sa import agree as G
+
+    def editor(tree):
+        d = M.find_def(tree, "WorkflowState.get_task_sequence")
+        done = False
+        for node in ast.walk(d):
+            for fld in ("body", "orelse"):
+                lst = getattr(node, fld, None)
+                if not isinstance(lst, list):
+                    continue
+                for i, st in enumerate(lst):
+                    if isinstance(st, ast.If) and isinstance(st.test, ast.Compare) and isinstance(
+                            st.test.ops[0], ast.NotIn) and st.body and isinstance(
+                            st.body[0], ast.Expr) and isinstance(st.body[0].value, ast.Call) \
+                            and getattr(st.body[0].value.func, "attr", "") == "append" and not done:
+                        app = st.body.pop(0)
+                        if not st.body:
+                            st.body.append(ast.Pass())
+                        lst.insert(i, app)
+                        done = True
+                        break
+        if not done:
+            raise M.EditFailed("no 'if x not in seq: seq.append(x)' step in get_task_sequence")
+
+    try:
+        p2 = M.apply(ctx.prog, COND, editor)
+    except M.EditFailed as e:
+        return ("append_before_membership_test", True, "skipped: %s" % e)
+    base = {f.key for f in G.rule_G4(ctx).findings}
+    new = [f for f in G.rule_G4(ctx.derive(p2)).findings if f.key not in base]
+    return ("append_before_membership_test", bool(new),
+            "descendant appended before the visited test: %d new finding(s)" % len(new))
+
+
 def ctl_merge_skips_none(ctx):
     """merge_dicts that does not overwrite with None."""
     import ast
